@@ -65,37 +65,6 @@ func H_C39_bool_string() {
 	nd.Reach("done")
 }
 
-// c39intKinds: the ten integer kinds.
-var c39intKinds = [10]protoreflect.Kind{
-	protoreflect.Int32Kind, protoreflect.Sint32Kind, protoreflect.Sfixed32Kind,
-	protoreflect.Int64Kind, protoreflect.Sint64Kind, protoreflect.Sfixed64Kind,
-	protoreflect.Uint32Kind, protoreflect.Fixed32Kind, protoreflect.Uint64Kind, protoreflect.Fixed64Kind,
-}
-
-// H_C39_ints: every value of every integer kind survives Marshal/Unmarshal (real
-// strconv.FormatInt/ParseInt executed symbolically).
-//
-//verif:props=C39 bounds=10-integer-kinds;all-32/64-bit-values solver=cvc5-int timeout=60000 maxsteps=4000000
-func H_C39_ints() {
-	ki := nd.Int(0, 9)
-	k := c39intKinds[ki]
-	var v protoreflect.Value
-	switch {
-	case ki < 3:
-		v = protoreflect.ValueOfInt32(nd.Int32())
-	case ki < 6:
-		v = protoreflect.ValueOfInt64(nd.Int64())
-	case ki < 8:
-		v = protoreflect.ValueOfUint32(nd.Uint32())
-	default:
-		v = protoreflect.ValueOfUint64(nd.Uint64())
-	}
-	s, err := Marshal(v, nil, k, Descriptor)
-	nd.Assert(err == nil, "integer default formats")
-	w, _, uerr := Unmarshal(s, k, nil, Descriptor)
-	nd.Assert(uerr == nil, "formatted integer default parses")
-	if uerr == nil {
-		nd.Reach("parsed")
-		nd.Assert(w.Equal(v), "integer default round trips exactly (same kind, same value)")
-	}
-}
+// Integer kinds: a full-width (and even a |v| < 100000) round trip through the real
+// strconv.FormatInt/ParseInt did not finish within budget (solver unknown on the digit-table
+// lookups, shape cap on smallsString slicing); integer defaults are therefore OUTSIDE the claim.
